@@ -167,6 +167,7 @@ class Translator:
             elif isinstance(n, ast.AsyncFunctionDef):
                 raise Unsupported("async method")
         self.done: dict[str, dict] = {}
+        self.entry_of: dict[str, str] = {}
         self.stack: list[dict] = []
         self.tmp = 0
         self.rebound = set()
@@ -225,12 +226,13 @@ class Translator:
                         self.coerce(("x", t), ctx["rtype"], fn, "return value")
                 ctx["final"] = True
                 ctx["tmp"] = 0
+                ctx["loops"] = []
                 ctx["fresh_used"] = False
                 code = self.seq(fn.body, self.env0(params, extra, m), (), 2)   # pass 2: the code
             finally:
                 self.stack.pop()
             d = {"params": params, "rtype": ctx["rtype"], "code": code, "raises": ctx["raises"], "calls": ctx["calls"],
-                 "fresh": ctx["fresh"], "defaults": self.defaults(fn, len(params))}
+                 "fresh": ctx["fresh"], "defaults": self.defaults(fn, len(params)), "loops": ctx.get("loops", [])}
         except Unsupported as e:
             self.done[m] = {"error": str(e), "own": True}
             raise
@@ -298,7 +300,8 @@ class Translator:
         locs = {}
         for name, t in params:
             locs[name] = ("()" if t == "opaque" else f"p_{name}", t)
-        env = {"locals": locs, "nonnull": set(), "handler": None, "inloop": False, "fname": m}
+        env = {"locals": locs, "nonnull": set(), "handler": None, "inloop": False, "fname": m, "alias": {},
+               "iterating": frozenset()}
         for name, dv in extra:
             locs[name] = self.ex(dv, env)
         return env
@@ -708,6 +711,8 @@ class Translator:
             parts, env2 = [], env
             for v in n.values:
                 parts.append(self.condr(v, env2))
+                if parts[-1][0] == ("false" if isand else "true"):
+                    break                   # decided at translation time: what follows is never evaluated
                 env2 = self.refine(env2, v, isand)
             if any(t != "bool" for _, t in parts):
                 bad(n, "and/or over a test that may raise")
@@ -946,7 +951,10 @@ class Translator:
             nodes[names.index(k.arg)] = k.value
         vals = {i: self.ex(a, env) for i, a in nodes.items()}
         argtypes = [vals[i][1] if i in vals else None for i in range(len(names))]
-        d = self.info(m, call, argtypes=argtypes)
+        if m in self.entry_of:          # an entry point called by another method keeps its fixed signature
+            d = self.info(m, call, entry=self.entry_of[m])
+        else:
+            d = self.info(m, call, argtypes=argtypes)
         args = []
         for i, (pn, pt) in enumerate(d["params"]):
             if i in vals:
@@ -1025,6 +1033,50 @@ class Translator:
             rz = self.raise_path(env, node, ind + 1)
             return f"{pad}match {v[0]} with\n{pad}| none =>\n{rz}\n{pad}| some {x} =>\n{okc}"
         return cont(v, env, ind)
+
+    # --- aliasing: lists and dicts are translated as VALUES; that is only right while no two names share one object that
+    # is then mutated in place, and while a list is not mutated in place during its own iteration (which could also
+    # make the loop endless)
+    def alias_root(self, n, env):
+        """the shared object an expression evaluates to WITHOUT copying: 'self._queue', 'self._recycling_bin',
+        'local:<name>' — or None when the value is fresh (slice, list(), comprehension, literal, call result)"""
+        if isinstance(n, ast.IfExp):
+            return self.alias_root(n.body, env) or self.alias_root(n.orelse, env)
+        if is_self(n) and n.attr in ("_queue", "_recycling_bin"):
+            return "self." + n.attr
+        if isinstance(n, ast.Name) and n.id in env["locals"] and env["locals"][n.id][1] in ("items", "errs", "dict", "elist"):
+            return env["alias"].get(n.id, "local:" + n.id)
+        if isinstance(n, ast.Attribute) and not is_self(n):
+            try:
+                v = self.ex(n.value, env)
+            except Unsupported:
+                return None
+            if v[1] == "dres" and isinstance(n.value, ast.Name):
+                return f"local:{n.value.id}.{n.attr}"
+        return None
+
+    def check_inplace(self, node, obj, env):
+        """`obj` (a root as above) is about to be mutated in place"""
+        if obj in env["iterating"]:
+            bad(node, f"{obj} mutated in place while it is being iterated")
+        shared = [k for k, r in env["alias"].items() if r == obj and "local:" + k != obj]
+        if shared or (obj.startswith("local:") and env["alias"].get(obj[6:], obj) != obj):
+            bad(node, f"{obj} mutated in place while another name refers to the same object")
+
+    def mutates_queue_in_place(self, stmts, seen=None):
+        """could running these statements mutate self._queue / the bin in place (directly or through own methods)?"""
+        seen = seen if seen is not None else set()
+        for st in stmts:
+            for n in ast.walk(st):
+                if isinstance(n, ast.Call) and isinstance(n.func, ast.Attribute):
+                    f = n.func
+                    if is_self(f.value) and f.value.attr in ("_queue", "_recycling_bin") and f.attr not in ("get", "copy", "items", "keys", "values", "index", "count"):
+                        return True
+                    if is_self(f) and f.attr in self.fns and f.attr not in seen:
+                        seen.add(f.attr)
+                        if self.mutates_queue_in_place(self.fns[f.attr].body, seen):
+                            return True
+        return False
 
     def assigned_names(self, stmts):
         out = []
@@ -1128,6 +1180,14 @@ class Translator:
             def after(v, e, i):
                 p = "  " * i
                 if is_self(tgt):
+                    if tgt.attr in ("_queue", "_recycling_bin"):
+                        root = self.alias_root(st.value, e) if st.value is not None else None
+                        al = {kk: r for kk, r in e["alias"].items() if r != "self." + tgt.attr}
+                        if root is not None and root.startswith("local:") and "." not in root:
+                            al[root[6:]] = "self." + tgt.attr
+                        elif root is not None and root != "self." + tgt.attr:
+                            bad(st, f"self.{tgt.attr} bound to an object that another name refers to")
+                        e = dict(e, alias=al)
                     if tgt.attr == "_queue":
                         c = self.coerce(v if v[1] != "elist" else ("[]", "items"), "items", st, "assignment to self._queue")
                         return f"{p}let s : PyS := {{ s with queue := {c} }}\n" + self.seq(rest, e, k, i)
@@ -1148,6 +1208,11 @@ class Translator:
                             t = "errs" if "str" in src else "items" if "Waste" in src else None
                         v = ("[]", t or self.resolve_elist(tgt.id, e, rest + [x for fr in k if fr[0] == "stmts" for x in fr[1]]))
                     line, e2 = self.bind(e, tgt.id, v)
+                    al = {kk: r for kk, r in e2["alias"].items() if kk != tgt.id and r != "local:" + tgt.id}
+                    root = self.alias_root(st.value, e) if st.value is not None else None
+                    if root is not None and root != "local:" + tgt.id:
+                        al[tgt.id] = root
+                    e2 = dict(e2, alias=al)
                     return (f"{p}{line}\n" if line else "") + self.seq(rest, e2, k, i)
                 bad(st, "assignment target")
             return self.with_value(st.value, env, ind, after)
@@ -1181,19 +1246,23 @@ class Translator:
             if isinstance(f, ast.Attribute) and f.attr in ("append", "update", "clear", "extend") and not call.keywords:
                 recv = f.value
                 if is_self(recv, "_queue") and f.attr == "append" and len(call.args) == 1:
+                    self.check_inplace(st, "self._queue", env)
                     a = self.ex(call.args[0], env)
                     if a[1] != "item":
                         bad(st, "append of a non-Waste to the queue")
                     return f"{pad}let s : PyS := {{ s with queue := s.queue ++ [{a[0]}] }}\n" + self.seq(rest, env, k, ind)
                 if is_self(recv, "_recycling_bin") and f.attr == "update" and len(call.args) == 1:
+                    self.check_inplace(st, "self._recycling_bin", env)
                     a = self.ex(call.args[0], env)
                     if a[1] != "dict":
                         bad(st, "update of the recycling bin with a non-dict")
                     return f"{pad}let s : PyS := {{ s with bin := dictUpdate s.bin {a[0]} }}\n" + self.seq(rest, env, k, ind)
                 if is_self(recv, "_recycling_bin") and f.attr == "clear" and not call.args:
+                    self.check_inplace(st, "self._recycling_bin", env)
                     return f"{pad}let s : PyS := {{ s with bin := [] }}\n" + self.seq(rest, env, k, ind)
                 if isinstance(recv, ast.Name) and recv.id in env["locals"]:
                     cur = env["locals"][recv.id]
+                    self.check_inplace(st, env["alias"].get(recv.id, "local:" + recv.id), env)
                     if f.attr == "append" and len(call.args) == 1:
                         a = self.ex(call.args[0], env)
                         if cur[1] == "errs" and a[1] == "opaque":
@@ -1233,6 +1302,11 @@ class Translator:
             if isinstance(n, ast.Break):
                 bad(n, "break")
         it = self.items_like(self.ex(st.iter, env), st, "iteration")
+        root = self.alias_root(st.iter, env)
+        if root in ("self._queue", "self._recycling_bin") and self.mutates_queue_in_place(st.body):
+            bad(st, f"loop over the live {root} whose body may mutate it in place")
+        self.stack[-1].setdefault("loops", []).append(
+            (self.stack[-1]["method"], "snapshot" if root is None else "local" if root.startswith("local:") else "live:" + root))
         assigned = self.assigned_names(st.body)
         accs = [(a, env["locals"][a][1]) for a in assigned if a in env["locals"] and a != st.target.id]
         for a, t in accs:
@@ -1251,6 +1325,7 @@ class Translator:
             loc[a] = (f"v_{a}", t)
             head.append(f"{pad}    let v_{a} : {LEAN_T[t]} := {proj('acc', i + 1, n)}")
         env_b = dict(env, locals=loc, inloop=True, handler=None,
+                     iterating=env["iterating"] | ({root} if root else set()),
                      nonnull={x for x in env["nonnull"] if not x.startswith("local:")})
         if env["handler"] is not None:
             # a raise inside the loop body would have to leave the fold
@@ -1285,6 +1360,9 @@ HEAD = ("import Operon.Model.LysosomePy\n"
         "set_option linter.unusedVariables false\n\n")
 
 
+LOOPS_MARK = "-- <loops>\n"
+
+
 def entry_sig(e):
     nm, ptypes, rt = ENTRY[e]
     fresh, raises = ENTRY_SHAPE[e]
@@ -1300,7 +1378,19 @@ def stub(e, why):
 
 
 def fallback(why: str, facts: str) -> str:
-    return HEAD + facts + "".join(stub(e, why) for e in ENTRY) + "end Operon.Lysosome\n"
+    return HEAD + facts + loops_text([], False) + "".join(stub(e, why) for e in ENTRY) + "end Operon.Lysosome\n"
+
+
+def loops_text(loops, ok):
+    rows = ", ".join(f'("{m}", "{w}")' for m, w in loops)
+    return ("/-- every loop of every translated method: (method, what it runs over) — `snapshot` = a list value built before the\n"
+            "    loop starts (slice, copy, comprehension, call result), `local` = a list held in a local variable, `live:<field>` = the\n"
+            "    object's own list; for both the body was checked not to mutate the list in place -/\n"
+            f"def Tr.loops : List (String × String) := [{rows}]\n\n"
+            "/-- every entry point was translated: so there is no `while`, no recursion among the methods, no generator, and\n"
+            "    every `for` runs over a finite list that is fixed when the loop starts and that its body cannot extend; each\n"
+            "    translated method is therefore a Lean function by structural recursion (`List.foldl`, `List.filter`) -/\n"
+            f"def Tr.allLoopsBounded : Bool := {'true' if ok else 'false'}\n\n")
 
 
 def facts_text(toxic_name, complete):
@@ -1329,6 +1419,7 @@ def render(src: str, mod=None) -> tuple[str, dict]:
             info["unsupported"][e] = f"{m} is two entry points"
             continue
         entry_of[m] = e
+    tr.entry_of = dict(entry_of)
     # the toxic digester first: it must not be translated as somebody's helper before it is an entry point
     for m, e in sorted(entry_of.items(), key=lambda me: me[1] != "<toxic>"):
         try:
@@ -1359,7 +1450,7 @@ def render(src: str, mod=None) -> tuple[str, dict]:
     for e in ENTRY:
         if pyname[e] in entry_of:
             visit(pyname[e])
-    out = HEAD + facts
+    out = HEAD + facts + LOOPS_MARK
     names = {}
     emitted_entries = set()
     for m in order:
@@ -1409,6 +1500,9 @@ def render(src: str, mod=None) -> tuple[str, dict]:
     for name, d in tr.done.items():
         if "error" in d:
             info["unsupported"].setdefault(name, d["error"])
+    loops = [lp for m in order for lp in (tr.done.get(m) or {}).get("loops", [])]
+    info["loops"] = loops
+    out = out.replace(LOOPS_MARK, loops_text(loops, not info["unsupported"]))
     return out + "end Operon.Lysosome\n", info
 
 
@@ -1463,7 +1557,8 @@ def run(repo: Path, lean_dir: Path, write_if_changed) -> list[dict]:
             text = fallback(f"generated code does not elaborate: {why}", facts_text(toxic_name, complete))
     changed = write_if_changed(target, text)
     return [{"id": "py2lean-lysosome", "facts_changed": bool(changed), "methods": info["methods"],
-             "unsupported": info["unsupported"], "toxic_entry": info["toxic_entry"], "module_evaluated": mod is not None}]
+             "unsupported": info["unsupported"], "toxic_entry": info["toxic_entry"], "loops": info.get("loops"),
+             "module_evaluated": mod is not None}]
 
 
 if __name__ == "__main__":
